@@ -119,7 +119,7 @@ func TestC13Hostile(t *testing.T) {
 		baseDigest := gossip.VerifDigest{{ID: "peer", Addr: "127.0.0.1:7001", Version: 9}, {ID: "victim", Addr: "127.0.0.1:7000", Version: 1 << 40}, {ID: "new", Addr: "127.0.0.1:7003", Version: 1}, {ID: "gone", Addr: "127.0.0.1:7004", Version: 1, Left: true}}
 		var input []byte
 		stream := false
-		kind := c.Pick("inputKind", 8)
+		kind := c.Pick("inputKind", 9)
 		switch kind {
 		case 0:
 			b, _ := gossip.VerifEncodeDelta("peer", "127.0.0.1:7001", baseDelta, 1400)
@@ -140,6 +140,19 @@ func TestC13Hostile(t *testing.T) {
 		case 6:
 			input, stream = gossip.VerifEncodeLeave(c.OneOf("claimedID", "peer", "victim"), "127.0.0.1:7001", aboutVictim(c, before.Version)), true
 			c.Class("well-formed-about-receiver")
+		case 8: // well-formed datagram with forged entry counts / versions
+			var secs []gossip.VerifRawSection
+			counts := []int{-1, -2, -128, -129, -32769, -1 << 31, -1 << 62, 0, 1, 2, 3, 127, 128, 65536, 1 << 31, 1 << 40, 1 << 62}
+			for i, k := 0, c.Int("sections", 1, 3); i < k; i++ {
+				sec := gossip.VerifRawSection{ID: c.OneOf("secID", "peer", "other", "new", "victim"), Addr: "127.0.0.1:7001", Count: counts[c.Pick("count", len(counts))]}
+				for j, m := 0, c.Int("realEntries", 0, 3); j < m; j++ {
+					ver := []uint64{0, 1, 3, 9, 1 << 32, 1<<64 - 1}[c.Pick("ver", 6)]
+					sec.Entries = append(sec.Entries, gossip.Entry{Key: c.OneOf("k", "k", "endpoint:e9", gossip.VerifCompactKey, gossip.VerifLeftKey), Value: c.OneOf("v", "1", "", "x", "18446744073709551615"), Version: ver, Internal: c.Bool("internal"), Deleted: c.Bool("deleted")})
+				}
+				secs = append(secs, sec)
+			}
+			input = gossip.VerifEncodeDeltaRaw("peer", "127.0.0.1:7001", counts[c.Pick("senderCount", len(counts))], secs)
+			c.Class("forged-counts")
 		case 7: // raw bytes with a plausible prefix
 			input = append([]byte{byte(c.Int("type", 0, 5)), byte(c.Int("version", 0, 1))}, c.Bytes("raw", 60)...)
 			stream = c.Bool("asStream")
